@@ -324,6 +324,7 @@ class CreditLedger(Monitor):
         super().__init__()
         self.lim = {}
         self.highest = {"client": {}, "server": {}}
+        self.other_stream_frames_checked = 0
         self.stream_frames = 0
         self.blocked_seen = set()  # (sender, kind) limits found exactly exhausted at some point
         self.progress_after_block = set()
@@ -427,6 +428,16 @@ class CreditLedger(Monitor):
                 continue
             for f in v.frames:
                 n = f["name"]
+                if n in ("STOP_SENDING", "MAX_STREAM_DATA", "STREAM_DATA_BLOCKED"):
+                    # any frame naming a stream S initiates opens that stream at the peer (RFC 9000 3.2 / 4.6): it is
+                    # bound by the peer's stream-count limit just like STREAM and RESET_STREAM
+                    sid = f["stream_id"]
+                    self.other_stream_frames_checked += 1
+                    if (sid % 2 == 0) == (s == "client"):
+                        kind = "uni" if sid & 2 else "bidi"
+                        if sid // 4 >= L[kind]:
+                            raise Violation("credit:stream-count-exceeded:%s:%s" % (kind, n), "%s sent %s for its own stream %d (#%d) with max_streams_%s=%d in force" % (s, n, sid, sid // 4 + 1, kind, L[kind]), {"t": t})
+                    continue
                 if n not in ("STREAM", "RESET_STREAM"):
                     continue
                 self.evaluations += 1
